@@ -18,7 +18,9 @@ TAGVALS = ["a", "b1", "x.y", "k=v", "t-1", "Z", "ü", "Bob\\tMarley", "two\\nlin
 def tag_text(v):
     return v.replace("\\t", "_").replace("\\n", "_")
 SCHEMAS = [None, u"{name} -- @{row.id} {examples.name}", u"{name} [{row.index}/{examples.index}]", u"{examples.name}:{row.id}:{name}",
-           u"{name}", u"{row.id}", u"{name} -*- {examples.name}@{row.index} ({examples.index})", u""]
+           u"{name}", u"{row.id}", u"{name} -*- {examples.name}@{row.index} ({examples.index})", u"",
+           # quotation marks are ordinary characters of a schema, at its ends too
+           u"{name} -- @{row.id} \"{examples.name}\"", u"'{examples.name}' {name} #{row.index}"]
 RULE = ("outlines with placeholders in name, step names, doc-strings, step-table headings and cells and tags; 0-3 examples "
         "blocks with different column orders, own tags and 0-3 rows (also none at all); cell values empty, unicode, equal "
         "to OTHER column names as plain text, containing format braces; name-annotation schemas over {name} {row.id} "
@@ -36,7 +38,7 @@ ASSUMPTIONS = [
 REQUIRED = {"expand.count_and_order": {"quick": 1500, "thorough": 100000}, "expand.row_scenario": {"quick": 3000, "thorough": 200000},
             "expand.template_unchanged": {"quick": 1500, "thorough": 100000}, "expand.rows_independent": {"quick": 800, "thorough": 50000},
             "modify.rebuilt": {"quick": 800, "thorough": 50000}, "builder.count": {"quick": 1500, "thorough": 100000}}
-REQUIRED_SEEN = {"entry_point": ["parse_scenario", "parse_feature"], "background_steps_shape": ["mixed", "all_with_placeholder", "none_with_placeholder"], "outline_place": ["in_rule", "in_feature"], "examples_shape": ["section_without_table_before_rows"], "tag_placeholder_column": ["name_with_punctuation"], "schema": 7, "modification": ["add_row", "add_row_object", "add_column", "remove_column"]}
+REQUIRED_SEEN = {"entry_point": ["parse_scenario", "parse_feature"], "background_steps_shape": ["mixed", "all_with_placeholder", "none_with_placeholder", "placeholder_step_with_doc_string"], "outline_place": ["in_rule", "in_feature"], "examples_shape": ["section_without_table_before_rows"], "tag_placeholder_column": ["name_with_punctuation"], "schema": 9, "schema_given_by": ["configuration_parameter", "outline_attribute"], "modification": ["add_row", "add_row_object", "add_column", "remove_column"]}
 NSHARDS = {"quick": 16, "thorough": 16}
 
 
@@ -120,6 +122,11 @@ def gen_outline(rng):
             with_ph = rng.random() < 0.5
             bsteps.append({"kw": "Given" if j == 0 else rng.choice(["And", "Given", "*"]),
                            "text": "bg%d %s" % (j, ("uses <%s> here" % rng.choice(cols)) if with_ph else "plain text")})
+            if rng.random() < 0.35:
+                # a background step may carry an argument of its own (here: plain prose without placeholders) -- whether or not
+                # its text uses a column
+                bsteps[-1]["doc"] = "\n".join(rng.choice(["plain prose", "  indented line", "a < b", "x > y"]) for _ in range(rng.randint(1, 2)))
+                bsteps[-1]["doc_quote"] = rng.choice(['"""', "'''"])
         background = {"kind": "background", "name": "", "desc": [], "steps": bsteps}
     if rng.random() < 0.3:
         # the outline inside a Rule (the feature-level flat scenario list still holds one scenario per row)
@@ -238,6 +245,28 @@ def one_case(mon, rng, sample=False):
     else:
         mon.seen("entry_point", "parse_feature")
     if schema is not None:
+        if schema and rng.random() < 0.35:
+            # the documented way for a whole project: the configuration parameter (config file entry / Configuration keyword), which
+            # behave installs as the schema of ALL outlines
+            from behave.configuration import Configuration
+            from behave.model import ScenarioOutline
+            from behave.tag_expression import TagExpressionProtocol as TEP
+            saved = ScenarioOutline.annotation_schema
+            try:
+                Configuration([], load_config=False, scenario_outline_annotation_schema=schema)
+                installed = ScenarioOutline.annotation_schema
+            except Exception as ex:
+                installed = repr(ex)
+            finally:
+                ScenarioOutline.annotation_schema = saved
+                TEP.use(TEP.DEFAULT)
+            mon.seen("schema_given_by", "configuration_parameter")
+            mon.check("schema.configuration_parameter_installs_the_schema_as_given", installed == schema,
+                      lambda: dict(schema=schema, installed=installed))
+            if installed != schema:
+                return
+        else:
+            mon.seen("schema_given_by", "outline_attribute")
         o.annotation_schema = schema
     key = ("item", idx, "item", 0) if in_rule else ("item", idx)
     mon.seen("outline_place", "in_rule" if in_rule else "in_feature")
@@ -294,6 +323,11 @@ def one_case(mon, rng, sample=False):
             got_bg = [x.name for x in (srow.background_steps or [])]
             mon.check("expand.background_steps_of_the_row", got_bg == want_bg,
                       lambda: W(row=srow.name, got=got_bg, want=want_bg))
+            want_doc = [st.get("doc") for st in bg_abs["steps"]]
+            got_doc = [None if x.text is None else str(x.text) for x in (srow.background_steps or [])]
+            mon.check("expand.background_steps_of_the_row", got_doc == want_doc, lambda: W(row=srow.name, got_doc_strings=got_doc, want_doc_strings=want_doc))
+            if any(d is not None and "<" in st["text"] for d, st in zip(want_doc, bg_abs["steps"])):
+                mon.seen("background_steps_shape", "placeholder_step_with_doc_string")
     # the flat lists of the feature: the scenarios in front of the outline, then one scenario per row (the outline itself
     # only on request)
     flat = [x.name for x in f.walk_scenarios()] if not via_fragment else [w[0] for w in want]
